@@ -6,6 +6,9 @@ SCHED_NOTE = ('Lean kernel + axioms propext/Classical.choice/Quot.sound; hand-wr
               'the correspondence run of this check (real AsyncScheduler/JobBuilder/controls under a virtual asyncio clock vs. the '
               'native Lean driver on the same operation lines); whenever, asyncio and CPython are modelled, not verified; '
               'virtual-clock semantics: a timer fires when the clock reaches it')
+PROD_NOTE = ('Lean kernel + axioms propext/Classical.choice/Quot.sound; hand-written model (lean/EaModel/Producer.lean, Replace.lean, Zone.lean, Filter.lean) '
+             'tied to /repo by the correspondence run of this check (real producers built through TriggerBuilder/FilterBuilder vs. the native Lean driver on the same '
+             'queries, in the zones of /usr/share/zoneinfo exported as transition tables); whenever, the tz database and random.uniform are modelled, not verified')
 CHECKS = {
  'C01': ('proof', 'Theorems (for every finite history of operations, every environment): queue invariant of every reachable state '
          '(only RUNNING jobs queued, no duplicates, sorted, RUNNING <-> run time set) and never-early (every recorded execution has '
@@ -31,6 +34,36 @@ CHECKS = {
          'reschedule never leaves the job RUNNING with the run time it was just executed for. Correspondence with injected failures in '
          'callables (call-time and await-time), callbacks and triggers; oracle: one handler report per failing invocation, behaviour '
          'identical to the failure-free history.', '8 C10', SCHED_NOTE, 'Lean 4 proof + differential correspondence + failure-free differential oracle'),
+ 'C04': ('proof', 'Theorem getNext_gt: for EVERY trigger expression of the model (time, interval, sun over any ephemeris, group, any nesting of '
+         'offset/earliest/latest/jitter, any filters), every zone table, draw function and reference instant a computed next occurrence is '
+         'strictly later. Tied to the code by comparing model and real producers (built through the builder API) on chains and boundary '
+         'instants (on / 1 ns before / after occurrences, around clock changes) in 25+ zones; inexact float amounts are judged by the oracle only.',
+         '8 C04', PROD_NOTE, 'Lean 4 structural induction over the trigger language + differential correspondence'),
+ 'C05': ('proof', 'Theorem getNext_least: for time / interval / group triggers with member- and group-level filters (any nesting of groups) the '
+         'result is the least element of the declaratively defined admissible occurrence set after the reference instant; the zone enters '
+         'through the explicit hypothesis TimeRegular, evaluated by the executable model for every zone/time/policy of the run. '
+         'Oracle: independent enumeration with zoneinfo (PEP 495).', '8 C05', PROD_NOTE,
+         'Lean 4 refinement to a declarative occurrence-set spec (loop invariants) + differential correspondence'),
+ 'C06': ('proof', 'Theorems: Zone.resolve is sound and complete w.r.t. toLocal for every sorted transition table (unique / repeated / skipped '
+         'mean what PEP 495 says); TimeReplacer.replace implements the 4x4 policy table (skip, earlier/later = shifted by exactly the gap, '
+         'after = first valid whole minute, twice = both in order) by case analysis; time_once_per_day. Correspondence: sweep over every '
+         'zone shape x clock changes x wall times in/around the affected interval x policies, plus random chains.', '8 C06', PROD_NOTE,
+         'Lean 4 proof (case analysis + induction on transition tables) + exhaustive-style zone sweep correspondence'),
+ 'C13': ('proof', 'Theorems: offset result = occurrence of the underlying trigger + exactly the offset; earliest/latest = max/min with the bound '
+         'the DST policy selects on the local date of the occurrence (unchanged within the bound, never beyond it); jitter result inside '
+         '[n+low, n+high] whenever that window is after the reference instant, for every draw function in range. Oracle judges against '
+         'the occurrence list of the underlying trigger alone. Amounts that are not binary fractions of a second are subject to finding F15.',
+         '8 C13', PROD_NOTE, 'Lean 4 proof about arbitrary inner triggers + differential correspondence'),
+ 'C14': ('proof', 'PARTIAL by design: proved for offsets of any sign and jitter with low >= 0 (attributed occurrences strictly increase along a '
+         'firing chain, every draw function); for jitter with low < 0 the property is false of the code (known finding F5, negation '
+         'theorem jitter_negative_double_fires with a concrete witness). The check attributes 40-step firing chains to underlying '
+         'occurrences and reports duplicates that do not match the F5 signature.', '8 C14', PROD_NOTE,
+         'Lean 4 proof (partial) + negation witness + chain oracle'),
+ 'C16': ('proof', 'Termination of the model is checked by the Lean kernel (every loop is structural recursion on a counter); theorems bound the '
+         'iterations of the not_infinite_loop loops and characterise the outcomes. PARTIAL: the filter search of IntervalProducer is an '
+         'unbounded while loop in the code (known finding F7a; theorem interval_unsat_never_returns: no fuel suffices). The check runs '
+         'unsatisfiable filters at every nesting level under a watchdog.', '8 C16', PROD_NOTE,
+         'Lean 4 totality + bound lemmas + watchdog correspondence'),
 }
 def main():
     from registry import PROPS
